@@ -681,6 +681,10 @@ impl<'b, 'a: 'b> FmtVisitor<'a> {
             (ast::AssocItemKind::MacCall(ref mac), _) => {
                 self.visit_mac(mac, MacroPosition::Item);
             }
+            (ast::AssocItemKind::Delegation(..) | ast::AssocItemKind::DelegationMac(..), _) => {
+                // Like delegation items at module level: leave the span unformatted.
+                self.push_rewrite(ai.span, None)
+            }
             _ => unreachable!(),
         }
     }
